@@ -100,7 +100,9 @@ trait CharExt: Sized {
 
 impl CharExt for char {
     fn has_casing(self) -> bool {
-        self.is_lowercase() != self.is_uppercase()
+        // A character has casing if a case mapping changes it. Note that title case characters
+        // (like `ǅ`) are neither lowercase nor uppercase.
+        self.to_lowercase().ne(Some(self)) || self.to_uppercase().ne(Some(self))
     }
 }
 
